@@ -90,7 +90,7 @@ inductive Mode
 def mode (args : List (List Char)) : Mode :=
   match args with
   | [] => .repl
-  | [p] => if ext p = ".bn".toList then .file p else .badExt
+  | [p] => if ext p = ['.', 'b', 'n'] then .file p else .badExt
   | _ => .usage
 
 def usageText : List Char := "Usage: borno [script]\n".toList
@@ -121,6 +121,34 @@ def repl (P : Platform) (fuel : Nat) (inp : List Char) : List Char × List Char 
   let rs := (scanLines inp).map (replRespond P fuel)
   (rs.foldl (fun acc r => acc ++ promptText ++ r.out) [] ++ promptText,
    rs.foldl (fun acc r => acc ++ r.stderr) [])
+
+/-- what a `borno` process does: stdout, stderr, exit status -/
+structure ProcOut where
+  out : List Char := []
+  err : List Char := []
+  status : Nat := 0
+  abnormal : Option Abn := none
+  deriving Repr, Inhabited
+
+def readErrorPrefix (path : List Char) : List Char :=
+  "Error: could not read file '".toList ++ path ++ "': ".toList
+
+/-- `main`: `args` excludes the program name; `file` is the content of the script if it can be
+    read (`none`: `os.ReadFile` fails — the text after the prefix is the OS's) -/
+def main (P : Platform) (fuel : Nat) (args : List (List Char)) (file : Option (List Char))
+    (stdin : List Char) : ProcOut :=
+  match mode args with
+  | .usage => { out := usageText, status := Expect.exitUsage }
+  | .badExt => { out := badExtText, status := Expect.exitUsage }
+  | .file path =>
+    (match file with
+     | none => { err := readErrorPrefix path, status := Expect.exitRead }
+     | some src =>
+       let r := run P fuel src false stdin
+       { out := r.out, err := r.stderr, status := fileStatus r, abnormal := r.abnormal })
+  | .repl =>
+    let (o, e) := repl P fuel stdin
+    { out := o, err := e, status := 0 }
 
 end Cli
 end Borno
